@@ -19,14 +19,15 @@ class V:
 
 
 class SInt(V):
-    __slots__ = ('e',)
+    __slots__ = ('e', 'digits')
 
-    def __init__(self, e):
+    def __init__(self, e, digits=None):
         if isinstance(e, bool):
             e = int(e)
         if isinstance(e, int):
             e = z3.IntVal(e)
         self.e = e
+        self.digits = digits      # code points this int was parsed from (int('0123')), if any
 
     def conc(self):
         e = z3.simplify(self.e) if not z3.is_int_value(self.e) else self.e
@@ -79,12 +80,13 @@ def _cp(c):
 
 class SStr(V):
     """chars: list of z3 Int (code points) when the length is known, else expr: z3 String"""
-    __slots__ = ('chars', 'expr', 'tag')
+    __slots__ = ('chars', 'expr', 'tag', 'parts')
 
     def __init__(self, chars=None, expr=None):
         self.chars = [_cp(c) for c in chars] if chars is not None else None
         self.expr = expr
         self.tag = None
+        self.parts = None     # (prefix z3 String, tail code points, sep code): expr == prefix ++ tail, tail is the last sep-piece
 
     @staticmethod
     def const(s):
